@@ -11,6 +11,7 @@ import Driver.Sched
 import Driver.Invoke
 import Driver.ModStoreDrv
 import Driver.Builtins
+import Driver.Enc
 open Driver
 
 /-- a trailing field starting with '#' carries human-readable context and is ignored -/
@@ -37,6 +38,8 @@ def dispatch (line : String) : String :=
   | "inv" :: args => handleInv args
   | "ms" :: args => handleMs args
   | "bi" :: args => handleBuiltins args
+  | "enc" :: args => handleEnc args
+  | "dec" :: args => handleDec args
   | _ => "bad-op"
 
 partial def loop (h : IO.FS.Stream) (out : IO.FS.Stream) : IO Unit := do
